@@ -83,4 +83,23 @@ def obligations(tier, seed):
 
         obs.append(Ob(f"C34/subtrace{list(inner_addr)}/{nm}", g, (gfi.KEY, P.args, P.example_vals()), assume=lambda k, a, v, A=A: A(a, v),
                       note="through vmap/scan/switch/mask/dimap: the (stacked) subtrace of a distribution call holds the site's values and per-element log-densities"))
+    # switch with a CONCRETE index (Python int and concrete array), including out-of-range values that are clamped:
+    # the subtrace at an address both branches trace must be the executed branch's
+    P = cat["switch(inner1,inner2s)"]()
+    A = gfi.base_assume(P, in_range=False)
+    ja = [j for j, s_ in enumerate(P.sites) if s_.static_addr == ("a",)][0]
+    for ci in (-2, -1, 0, 1, 2, 3):
+        for as_array in (False, True):
+            def h(key, bargs, vals, ci=ci, as_array=as_array):
+                import numpy as np
+
+                idx = np.int32(ci) if as_array else ci  # NumPy scalar: stays concrete while tracing
+                args = (idx,) + tuple(bargs)
+                tr, _ = P.gf.importance(key, P.chm(vals), args)
+                st = tr.get_subtrace("a")
+                r = P.ref((jnp.int32(ci),) + tuple(bargs), vals)
+                return (st.get_score(), st.get_choices().get_value()), (jnp.sum(r.terms[ja]), tr.get_choices()["a"])
+
+            obs.append(Ob(f"C34/subtrace-switch-concrete-idx[{ci}{',numpy' if as_array else ''}]/switch(inner1,inner2s)", h, (gfi.KEY, tuple(P.args[1:]), P.example_vals()),
+                          assume=lambda k, a, v: P.assume(jnp.int32(0), *a) if False else [], note="concrete switch index (in and out of range): get_subtrace('a') is the clamped branch's call: its score == that site's log-density, its value == the parent's choice"))
     return obs
